@@ -85,6 +85,28 @@ Theorem close_releases : forall k fd, sock_wf k -> k_bad (close k fd) = k_bad k 
      forall c, In c ready -> get (close k fd) c = None).
 Proof. exact close_releases_lemma. Qed.
 
+(* ... and nothing else: a socket that is not in the listener's accept queue and
+   is not a SynReceived child on the listener's port, of the listener's address
+   family and (unless the listener is bound to the wildcard) on its address, is
+   left exactly as it was.  In particular closing 0.0.0.0:p spares the
+   half-open connections of [::]:p (repaired in /repo by fix 5937758). *)
+Theorem close_listener_spares_others : forall k fd s b ready c s',
+  sock_wf k ->
+  get k fd = Some s -> s_ty s = Stream -> s_tcb s = None -> s_listen s = Some (b, ready) ->
+  c <> fd -> get k c = Some s' -> ~ In c ready ->
+  match s_tcb s', s_bound s' with
+  | Some t, Some bk => tstate_eqb (t_state t) SynReceived && (b_port bk =? snd (bound_endpoint s)) &&
+                       same_family (b_addr bk) (fst (bound_endpoint s)) &&
+                       (is_unspec (fst (bound_endpoint s)) || ip_eqb (b_addr bk) (fst (bound_endpoint s)))
+  | _, _ => false
+  end = false ->
+  get (close k fd) c = Some s'.
+Proof.
+  intros k fd s b ready c s' Hw G Ht Htcb Hl Hne Gc Hr Hc.
+  apply (close_listener_spares_lemma k fd s b ready c s' Hw G Ht Htcb Hl Hne Gc Hr).
+  unfold child_cond. cbn [fst snd]. rewrite Hc. now rewrite andb_false_r.
+Qed.
+
 (* ---- demux -------------------------------------------------------------------------------- *)
 (* a datagram goes to the first socket bound to (dst addr, dst port), else to
    the first bound to (wildcard, dst port), else nowhere; it is queued only if
@@ -213,6 +235,7 @@ Print Assumptions port0_none_iff_exhausted.
 Print Assumptions port0_first_free_from_cursor.
 Print Assumptions close_frees.
 Print Assumptions close_releases.
+Print Assumptions close_listener_spares_others.
 Print Assumptions udp_demux.
 Print Assumptions tcp_demux_rule.
 Print Assumptions fabric_route.
